@@ -374,7 +374,7 @@ PROPS["C13"] = dict(
                "summarised as a de-duplicated event set), Coq kernel + vm_compute, the race detector, the harness. F16, F17, F28 are known findings (lockset failures, each "
                "confirmed by the race detector); F29 (deadline setters cancel the dtlcp handshake's retransmission timer) is a known finding of the stress harness.",
     code_names={1: "stream-not-whole-payloads-each-exactly-once", 2: "handshake-callers-disagree", 3: "goroutine-stuck-after-close", 4: "panic",
-                5: "write-failed-or-short", 6: "datagram-close-returned-with-calls-inside", 7: "call-made-no-progress-until-close", 10: "data-race", 20: "field-accessed-without-common-lock",
+                5: "write-failed-or-short-or-bytes-lost-or-duplicated-among-readers", 6: "datagram-close-returned-with-calls-inside", 7: "call-made-no-progress-until-close", 10: "data-race", 20: "field-accessed-without-common-lock",
                 "crash": "crash", "hang": "hang"},
     assumptions=["Go's sync.Mutex and sync/atomic operations synchronise as the Go memory model says (used by the handshake-phase exemption)",
                  "a dtlcp connection is constructed with a non-nil remote address (remoteAddr exemption)",
